@@ -159,7 +159,9 @@ def run_replace(ctx, p, given=None, tag=''):
                         ctx.assume(idx[m][k] != idx[m2][k2])
             else:   # any overlap, but never the same atom group (find reports each group once)
                 ctx.assume(OR(*[AND(*[idx[m][k] != idx[m2][k2] for k2 in range(n)]) for k in range(n)]))
-    mpos = [[[ctx.real(f"mp{tag}{m}_{k}{c}", -30, 30) for c in 'xyz'] for k in range(n)] for m in range(M)]
+    # matched positions are concrete here (bookkeeping does not depend on them; the placement of inserted atoms is C05's):
+    # symbolic ones would only multiply paths through the periodic wrap of every inserted coordinate
+    mpos = [[[1.5 + 2.0 * m + 0.7 * k + 0.3 * c for c in range(3)] for k in range(n)] for m in range(M)]
     calls = []
 
     def find_stub(structure, pattern, **kw):
@@ -169,7 +171,7 @@ def run_replace(ctx, p, given=None, tag=''):
         q = np.empty(M, dtype=object)
         for m in range(M):
             q[m] = IdQ()
-        return [tuple(t) for t in idx], (np.array(mpos, dtype=object) if ctx.sym else np.array(mpos, dtype=float)), q
+        return [tuple(t) for t in idx], np.array(mpos, dtype=float), q
 
     f = p.get('fraction', 1.0)
     if f == 'sym':
